@@ -8,8 +8,17 @@ ops:  build m k V bias  E (u v)*  X(r c …)  Q(r c …)
         the inverted blocks are handed in (contract parameter: truncated-SVD inverse)
       build-coded …  (same arguments) the constructor as coded before the repair: err zerodim when the
         inverted covariance is 1 × 1
+      build-ns m k V bias isArray ns  E (u v)*  X(r c …)  Q(r c …)
+        `n_samples = ns` handed to the constructor together with a list (isArray = 0) or an array (1) of samples
+      trunc m k V bias nc  E (u v)*  nS (nσ σ… W(r c …))*  X(r c …)  Q(r c …)
+        `n_components = nc` with one rational eigen-decomposition certificate per edge / vertex (eigenvalues
+        descending, rows of W the eigenvectors); the model verifies every certificate exactly (`checkSpec`)
+      build-obj m k V bias  E (u v)*  nP P₁(V k …) …  nQ Q₁(V k …) …
+        `GMRFModel`: samples and queries are V × k point sets; extra reply fields MO (mean() as V × k) and
+        M1 (each query instance asked on its own, sparse storage)
 reply: ok D <n·n dense entries> S <n·n sparse entries> IP <indptr> MU <mean> MS <mahal sparse> MD <mahal dense>
-       | err singular | err zerodim
+          MR <mahal dense, subtract_mean=False>
+       | err singular | err zerodim | err certificate
 -/
 import MenpoModel.Core.Codec
 import MenpoModel.Core.C12GMRF
@@ -32,7 +41,10 @@ def fmtModel (k V : Nat) (M : Model) (Q : Mat) : String :=
   let q := subMean Q M.mean n
   "ok D " ++ fmtMat (tab n n (ent M.denseP)) ++ " S " ++ fmtMat sp ++
     " IP " ++ fmtNats M.sparseP.indptr ++ " MU " ++ fmtRats M.mean ++
-    " MS " ++ fmtRats (mahalSparse n (ent sp) q) ++ " MD " ++ fmtRats (mahalDense n (ent M.denseP) q)
+    " MS " ++ fmtRats (mahalSparse n (ent sp) q) ++ " MD " ++ fmtRats (mahalDense n (ent M.denseP) q) ++
+    " MR " ++ fmtRats (mahalDense n (ent M.denseP) (tab Q.length n (ent Q)))
+
+def pSpec : P (List Rat × Mat) := do let sig ← pList pRat; let W ← pMat; pure (sig, W)
 
 def step (toks : List String) : String :=
   match toks with
@@ -46,6 +58,16 @@ def step (toks : List String) : String :=
       | some M => fmtModel k V M Q
       | none => "err singular"
     | none => "bad-op"
+  | "build-ns" :: rest =>
+    match runP (do
+        let m ← pMode; let k ← pNat; let V ← pNat; let b ← pBool; let isArr ← pBool; let ns ← pNat
+        let es ← pList pEdge; let X ← pMat; let Q ← pMat
+        pure (m, k, V, b, isArr, ns, es, X, Q)) rest with
+    | some (m, k, V, b, isArr, ns, es, X, Q) =>
+      match buildFrom m k V isArr X (some ns) b es with
+      | some M => fmtModel k V M Q
+      | none => "err singular"
+    | none => "bad-op"
   | "build-coded" :: rest =>
     match runP (do
         let m ← pMode; let k ← pNat; let V ← pNat; let b ← pBool
@@ -56,6 +78,32 @@ def step (toks : List String) : String :=
       | .ok M => fmtModel k V M Q
       | .error .zeroDim => "err zerodim"
       | .error .singular => "err singular"
+    | none => "bad-op"
+  | "trunc" :: rest =>
+    match runP (do
+        let m ← pMode; let k ← pNat; let V ← pNat; let b ← pBool; let nc ← pNat
+        let es ← pList pEdge; let specs ← pList pSpec; let X ← pMat; let Q ← pMat
+        pure (m, k, V, b, nc, es, specs, X, Q)) rest with
+    | some (m, k, V, b, nc, es, specs, X, Q) =>
+      match buildTrunc m k V X X.length b es nc specs with
+      | some M => fmtModel k V M Q
+      | none => "err certificate"
+    | none => "bad-op"
+  | "build-obj" :: rest =>
+    match runP (do
+        let m ← pMode; let k ← pNat; let V ← pNat; let b ← pBool
+        let es ← pList pEdge; let ps ← pList pMat; let qs ← pList pMat
+        pure (m, k, V, b, es, ps, qs)) rest with
+    | some (m, k, V, b, es, ps, qs) =>
+      match buildObj m k V ps b es with
+      | some M =>
+        let n := V * k
+        let sp : Mat := tab n n (bsrEnt k M.sparseP)
+        let singles := qs.map fun q =>
+          (mahalSparse n (ent sp) (subMean (queryMatrix V k (.one q)) M.mean n)).getD 0 0
+        fmtModel k V M (queryMatrix V k (.many qs)) ++ " MO " ++ fmtMat (meanObj V k M) ++
+          " M1 " ++ fmtRats singles
+      | none => "err singular"
     | none => "bad-op"
   | "given" :: rest =>
     match runP (do
